@@ -189,6 +189,19 @@ func laneBit(rng *rand.Rand) uint {
 
 func alter(l *raft.Log, f, m string, rng *rand.Rand) *raft.Log {
 	c := cloneLog(l)
+	if strings.HasPrefix(m, "lane") && len(m) == 5 && (f == "i" || f == "t") {
+		// harness-only variants of alt2: one bit of a chosen byte of the value (lane 7 = the most significant byte)
+		bit := uint(m[4]-'0')*8 + uint(rng.Intn(8))
+		if f == "t" {
+			c.Term ^= 1 << bit
+		} else {
+			if bit == 0 {
+				bit = 1
+			}
+			c.Index ^= 1 << bit
+		}
+		return c
+	}
 	switch f {
 	case "i":
 		if m == "alt1" {
